@@ -26,15 +26,37 @@ const (
 	FaultDrop        // close the connection without replying
 )
 
-// Batch describes one unit of client→server work (everything up to a Sync / Query / CopyDone / Terminate).
+// Batch describes one unit of client→server work (everything up to a Sync / Query / CopyDone / Terminate). It is
+// what Server.Gate sees before the batch executes. Kind is exactly one of:
+//
+//	"startup"   the StartupMessage of a new connection (authentication handshake). SQL is empty. Conn is the id
+//	            the new session gets. No SQL state can be touched; a harness normally lets it pass (FaultNone).
+//	"query"     one simple-protocol Query message. SQL holds its ';'-separated statements (one entry each, in
+//	            order). pgx sends begin / commit / rollback, argument-less Exec calls (e.g. the schema script) and
+//	            `copy … from stdin binary` this way. A COPY statement only switches the session to copy-in mode;
+//	            its rows arrive later in a "copydone" batch.
+//	"extended"  an extended-protocol round trip: any of Parse / Bind / Describe / Execute / Close, ended by Sync.
+//	            SQL holds the text of every statement EXECUTED in this batch (one entry per Execute message, in
+//	            order). Parse holds the text of every statement parsed (prepared) in this batch. PrepareOnly is
+//	            true when the batch contains no Execute message at all: pgx's statement-cache "prepare" round trip
+//	            (Parse+Describe+Sync), including the `select "c1",… from "T"` that CopyFrom prepares to learn the
+//	            column types, and Close/Deallocate round trips. Such a batch cannot change or read table data (it
+//	            only reads the catalog), so a harness may treat it as invisible.
+//	"copydone"  the CopyDone (or CopyFail) message that ends a COPY … FROM STDIN; all CopyData received since the
+//	            COPY statement is parsed and inserted now. SQL holds the COPY statement.
+//	"terminate" the Terminate message (graceful client close). SQL is empty. The session ends whatever the gate
+//	            answers; an open transaction is rolled back ("connloss").
+//
+// PrepareOnly is false for every kind other than "extended".
 type Batch struct {
-	Conn    int
-	Seq     int
-	Kind    string   // "startup", "query", "extended", "copydone", "terminate"
-	SQL     []string // statements that will execute
-	Parse   []string // statements that are only being prepared in this batch
-	InTx    bool     // an explicit transaction is open (state T or E)
-	TxState byte     // 'I', 'T', 'E'
+	Conn        int
+	Seq         int
+	Kind        string   // "startup", "query", "extended", "copydone", "terminate"
+	SQL         []string // statements that will execute
+	Parse       []string // statements that are being prepared in this batch (extended only)
+	PrepareOnly bool     // extended batch without any Execute message
+	InTx        bool     // an explicit transaction is open (state T or E)
+	TxState     byte     // 'I', 'T', 'E'
 }
 
 type Row struct {
@@ -167,6 +189,14 @@ type txn struct {
 	undo     []func()  // DDL undo log
 	notes    []Notification
 	advLocks map[int64]bool
+	start    int64 // value of now() / transaction_timestamp(): fixed when the transaction starts
+	started  bool
+}
+
+// begin fixes the transaction timestamp.
+func (tx *txn) begin(now int64) *txn {
+	tx.start, tx.started = now, true
+	return tx
 }
 
 func newTxn(c *conn, explicit bool) *txn {
@@ -239,8 +269,7 @@ func (s *Server) dropLocked(c *conn, seq int) {
 	if c.tx != nil {
 		s.endTx(c, "connloss", seq)
 	}
-	c.failed = false
-	c.copy = nil
+	c.failed = false // (c.copy belongs to the writer goroutine and is left alone: a dead session processes nothing)
 	for i, o := range s.conns {
 		if o == c {
 			s.conns = append(s.conns[:i:i], s.conns[i+1:]...)
@@ -488,7 +517,7 @@ func (s *Server) Restore(snap *Snapshot) {
 	for _, c := range s.conns {
 		if c.tx != nil {
 			s.flag("restore-with-open-tx")
-			nt := newTxn(c, c.tx.explicit)
+			nt := newTxn(c, c.tx.explicit).begin(c.tx.start)
 			c.tx.ended.Store(true)
 			c.tx = nt
 		}
